@@ -287,6 +287,7 @@ struct Collect<'ast> {
     closures: Vec<&'ast syn::ExprClosure>,
     loops: Vec<&'ast syn::Expr>,
     iflets: Vec<&'ast syn::ExprIf>,
+    arms: Vec<&'ast syn::Arm>,
     stmts: Vec<&'ast syn::Stmt>,
     exprs: Vec<&'ast syn::Expr>,
 }
@@ -299,6 +300,11 @@ impl<'ast> Visit<'ast> for Collect<'ast> {
             syn::Expr::If(i) => {
                 if matches!(&*i.cond, syn::Expr::Let(_)) {
                     self.iflets.push(i)
+                }
+            }
+            syn::Expr::Match(m) => {
+                for a in &m.arms {
+                    self.arms.push(a)
                 }
             }
             _ => {}
@@ -501,6 +507,35 @@ pub fn extract_fn(ctx: &mut Ctx, blk: &Block) -> Result<(String, Value), String>
                     let open = offs.range(src, il.then_branch.brace_token.span.open()).0;
                     let t: String = binds.iter().map(|b| format!(" let {b} = *{b}__r;")).collect();
                     ed.insert(open + 1, &t, "N1", "reference pattern on Copy value");
+                }
+            }
+        }
+    }
+
+    // N1 on match arms: `Some(&x) => B`  →  `Some(x__r) => { let x = *x__r; B }`
+    for arm in &col.arms {
+        if let syn::Pat::TupleStruct(ts) = &arm.pat {
+            let mut binds = Vec::new();
+            for el in &ts.elems {
+                if let syn::Pat::Reference(r) = el {
+                    if let syn::Pat::Ident(id) = &*r.pat {
+                        let (s, e) = offs.range(src, r.span());
+                        ed.replace(s, e, &format!("{}__r", id.ident), "N1", "reference pattern on Copy value");
+                        binds.push(id.ident.to_string());
+                    } else {
+                        return Err("construct outside rule list: nested reference pattern".into());
+                    }
+                }
+            }
+            if !binds.is_empty() {
+                let t: String = binds.iter().map(|b| format!(" let {b} = *{b}__r;")).collect();
+                if let syn::Expr::Block(b) = &*arm.body {
+                    let open = offs.range(src, b.block.brace_token.span.open()).0;
+                    ed.insert(open + 1, &t, "N1", "reference pattern on Copy value");
+                } else {
+                    let (s, e) = offs.range(src, arm.body.span());
+                    ed.insert(s, &format!("{{{t} "), "N1", "reference pattern on Copy value");
+                    ed.insert(e, " }", "N1", "reference pattern on Copy value");
                 }
             }
         }
